@@ -228,17 +228,17 @@ def run_bounded(run, tier, seed):
                 for ch in chunks(list(range(G.n_und(4))), 4):
                     tasks.append((name, 4, ch, weighted, d4, 6 if not thorough else 24, [seed + 1, seed + 2]))
             bits5 = list(range(G.n_und(5))) if thorough else sorted(rs.choice(G.n_und(5), 96, replace=False).tolist())
-            for ch in chunks(bits5, 8):
+            for ch in chunks(bits5, 64 if thorough else 8):
                 tasks.append((name, 5, ch, True, 3 + (1 if latt else 0), 3, [seed + 3]))
         else:
             bits4 = list(range(G.n_dir(4))) if thorough else sorted(rs.choice(G.n_dir(4), 192, replace=False).tolist())
-            for ch in chunks(bits4, 12):
-                tasks.append((name, 4, ch, True, (4 if thorough else 2) + (1 if latt else 0), 4, [seed + 4]))
+            for ch in chunks(bits4, 64 if thorough else 12):
+                tasks.append((name, 4, ch, True, 2 + (1 if latt else 0), 4, [seed + 4, seed + 5] if thorough else [seed + 4]))
     part = run.bounded_part(
         'rewiring-routines-small-scope',
         bounds={'undirected': 'all 64 labelled graphs n=4 (binary and weighted {1,2,3} by position), %s graphs n=5' % ('all 1024' if thorough else '256 sampled'),
                 'directed': '%s labelled digraphs n=4, weighted' % ('all 4096' if thorough else '192 sampled'),
-                'scripts': 'every sequence of random choices up to depth %s draws (undirected n=4 / directed; latticisers one more for the node ordering; n=5: 3; coin in {.25,.75}; node orderings: first %s permutations), then a seeded continuation' % ('5/4' if thorough else '3/2', '24' if thorough else '6'),
+                'scripts': 'every sequence of random choices up to depth %s draws (undirected n=4 / directed; latticisers one more for the node ordering; n=5: 3; coin in {.25,.75}; node orderings: first %s permutations), then a seeded continuation' % ('5/2' if thorough else '3/2', '24' if thorough else '6'),
                 'budgets': 'itr = 0, 1.5/k, 2.5/k (0, 1, 2 outer iterations); latticisers itr = 0, 1; maxswap = 0, 1, 2'},
         rule='one case = (routine, input graph, budget, choice script); non-trivial = at least one accepted swap; distinct by (routine, graph bytes, script)',
         exhaustive=thorough)
